@@ -160,8 +160,63 @@ def check_object(ctx, g, n, abstract, where, hist):
                       {"n": n, "history": [list(map(str, o)) for o in hist], "failures": str(fails[:6])})
 
 
+def unbounded_bounds_stage(ctx):
+    """Bulk bound setters handed vectors that contain +inf / -inf / NaN (the natural "no information" bounds), also at the
+    positions of known coalitions: a known coalition keeps lower = upper = value through every getter, an unknown one takes
+    the supplied bound.  Infinite values are outside the rational model, so this stage is judged on the implementation alone."""
+    rng = ctx.rng
+    for _ in range(40 if ctx.quick else 400):
+        n = rng.randint(1, 4)
+        N = 2 ** n
+        g = IncompleteCooperativeGame(n)
+        known = {0: 0.0}
+        for i in rng.sample(range(1, N), rng.randint(0, N - 1)):
+            x = float(rng.randint(-9, 9))
+            g.set_value(x, Coalition(i))
+            known[i] = x
+        hist = [("set", i, x) for i, x in known.items() if i]
+        lower = {i: 0.0 for i in range(N) if i not in known}
+        upper = dict(lower)
+        palette = [float("inf"), float("-inf"), float("nan"), 0.0, 3.5, -2.0, 1e300]
+        for _ in range(rng.randint(1, 4)):
+            which = rng.choice(["lower", "upper"])
+            if rng.random() < 0.5:
+                ids = list(range(N))
+            else:
+                ids = sorted(rng.sample(range(N), rng.randint(1, N)))
+            vals = [rng.choice(palette) for _ in ids]
+            arr = np.array(vals, dtype=float)
+            cs = None if len(ids) == N and rng.random() < 0.5 else [Coalition(i) for i in ids]
+            (g.set_lower_bounds if which == "lower" else g.set_upper_bounds)(arr, cs)
+            hist.append((which + "s", ids, vals))
+            for i, x in zip(ids, vals):
+                if i not in known:
+                    (lower if which == "lower" else upper)[i] = x
+        ctx.evaluations += 1
+        ctx.count("unbounded_bounds_histories", n)
+        same = lambda a, b: (a == b) or (math.isnan(a) and math.isnan(b))
+        fails = []
+        lo_all, up_all = g.get_lower_bounds(), g.get_upper_bounds()
+        for i in range(N):
+            c = Coalition(i)
+            if i in known:
+                got = (float(g.get_lower_bound(c)), float(g.get_upper_bound(c)), float(g.get_value(c)), float(lo_all[i]), float(up_all[i]),
+                       float(g.get_values([c])[0]), float(g.get_known_values([c])[0]))
+                if any(x != known[i] for x in got) or not g.is_value_known(c):
+                    fails.append((i, "known coalition altered by a bulk bound setter", got, known[i]))
+            else:
+                if not same(float(lo_all[i]), lower[i]) or not same(float(up_all[i]), upper[i]) or g.is_value_known(c):
+                    fails.append((i, "unknown coalition does not hold the supplied bounds", (float(lo_all[i]), float(up_all[i])), (lower[i], upper[i])))
+        if fails:
+            ctx.violation(f"bulk bound setters with infinite / NaN entries: {fails[:3]}",
+                          {"n": n, "history": [list(map(str, h)) for h in hist], "failures": str(fails[:5])})
+            return
+        ctx.nontrivial.add(("unbounded", n, len(hist)))
+
+
 def run(ctx, proof):
     rng = ctx.rng
+    unbounded_bounds_stage(ctx)
     ncases = 150 if ctx.quick else 2500
     lines, metas = [], []
     for _ in range(ncases):
